@@ -1,32 +1,43 @@
 # C10: persistent store/validate/fetch round-trips and stays inside its region
 U = ["src/persistent-storage.c", "src/crc-16-arc.c"]
 
+KIND_NAMES = {0: "builtin", 1: "crc16", 2: "sum32", 3: "any16", 4: "any32"}
+
 INFO = {
     "explanation": "src/persistent-storage.c (with the real CRC-16/ARC behind the checksum callback) is executed "
                    "symbolically through its public API against a medium model whose read/write callbacks assert "
                    "that every access lies inside the instance's checksum-plus-data region and fits the caller's "
-                   "buffer. Per data size N (one instance each) the placement (32 bit), the checksum kind "
-                   "(built-in trivial sum, CRC-16/ARC, a 32-bit sum), its initial value, the order of the "
-                   "configuration calls, the auxiliary buffer (none or 1..N+1 octets, exact extent), the initial "
-                   "medium content (arbitrary, so every mode is a step from any history), the image, the 64-bit "
-                   "(offset,length) pairs and the altered octet are symbolic. Oracle: the configured algorithm "
-                   "applied in one piece to the data image; overlay model for partial stores; mathematical "
-                   "(non-wrapping) offset+length for refusals.",
+                   "buffer. One instance per (data size N, checksum kind, auxiliary buffer size, operation); inside an "
+                   "instance the placement (32 bit), the initial value, the order of the configuration calls, the "
+                   "initial medium content (arbitrary, so every operation is a step from any history), the image, "
+                   "the 64-bit (offset,length) pair and the altered octet are symbolic. Checksum kinds: the library's "
+                   "built-in trivial sum, CRC-16/ARC (real ufw_crc16_arc), a 32-bit sum, and an ABSTRACT 16/32-bit "
+                   "algorithm whose running states over the data image are unconstrained inputs (covers every "
+                   "chunk-compositional algorithm of that width). Oracle: the configured algorithm applied in one "
+                   "piece to the data image; overlay model for partial stores; mathematical (non-wrapping) "
+                   "offset+length for refusals.",
     "bounds": {
-        "quick": {"N": "1..4 (enumerated)", "aux": "none, 1..N+1", "placement": "any 32-bit base with region below 2^32",
-                  "offset_len": "full 64-bit", "alteration": "one octet of checksum or data, any value"},
-        "thorough": {"N": "1..8 (enumerated)", "aux": "none, 1..N+1", "placement": "any 32-bit base",
-                     "offset_len": "full 64-bit", "alteration": "one octet"},
+        "quick": {"N": "1..4 (enumerated)", "aux": "none, 1..N+1 (enumerated)",
+                  "kinds": "roundtrip+alteration: any16 at every aux size; builtin, crc16, sum32, any32 at aux none / (N+1)/2 / N+1. "
+                           "store_part: any16 at every aux size; builtin, any32 at the three sizes. reset: builtin (16 bit) at every "
+                           "aux size, any32 at the three sizes. fetch_part (does not use the buffer): builtin, any32",
+                  "placement": "any 32-bit base with region below 2^32", "offset_len": "full 64-bit",
+                  "alteration": "one octet of checksum or data, any value"},
+        "thorough": {"N": "1..8 (enumerated)", "aux": "none, 1..N+1 (enumerated)", "kinds": "as quick but every kind at every aux size",
+                     "placement": "any 32-bit base", "offset_len": "full 64-bit", "alteration": "one octet"},
     },
     "outside_bounds": ["data sizes above the enumerated N", "auxiliary buffer pointer non-NULL with size 0 "
-                       "(the chunk loops do not terminate; not part of the claim)",
+                       "(the chunk loops of the library do not terminate; not part of the claim)",
                        "checksum callbacks that are not chunk-compositional",
                        "regions that wrap the 32-bit address space", "word-addressed media",
                        "more than one octet altered"],
     "stubs": ["medium: static array + read/write callbacks (harness/C10/c10_common.h), exact transfers",
-              "32-bit sum callback s' = 33 s + octet (harness)", "memcpy/memset byte loops (harness/lib/libc_models.c)"],
+              "32-bit sum callback s' = 33 s + octet (harness)",
+              "abstract checksum callback: returns the input-supplied state after p+n octets when fed state p and the "
+              "next n octets of the current image, an unconstrained value otherwise",
+              "memcpy/memset byte loops (harness/lib/libc_models.c)"],
     "assumptions": ["checksum on the medium is compared in host (little-endian) representation of the 16/32-bit integer",
-                    "region [base, base+cs+N) does not wrap 2^32", "kind/order/aux within their enumerations"],
+                    "region [base, base+cs+N) does not wrap 2^32", "order of configuration calls in {sum,place},{place,sum},{no place, base 0}"],
 }
 
 
@@ -45,12 +56,35 @@ def _unwind(n):
     }
 
 
-def instances(tier):
-    sizes = range(1, 5) if tier == "quick" else range(1, 9)
+def _grid(tier):
+    """-> list of (mode, n, kind, aux). Every (N, aux) pair is run with the abstract 16-bit algorithm; the other
+    kinds (32-bit abstract, built-in, CRC-16/ARC, 32-bit sum) at the aux sizes none / half / N+1 in the quick
+    tier and at every aux size in the thorough tier."""
+    quick = tier == "quick"
+    sizes = range(1, 5) if quick else range(1, 9)
     out = []
     for n in sizes:
-        for mode in ("ROUNDTRIP", "PART", "RESET"):
-            out.append(mk("c10_%s_n%d" % (mode.lower(), n), "C10/c10.c", U,
-                          {"MODE_" + mode: None, "N": n}, unwind=_unwind(n), default_unwind=2,
-                          fp_removal=True, timeout=1500))
+        auxs = list(range(0, n + 2))
+        sub = sorted(set([0, (n + 1) // 2, n + 1])) if quick else auxs
+        for a in auxs:
+            out.append(("ROUNDTRIP", n, 3, a))
+            out.append(("PART", n, 3, a))
+            out.append(("RESET", n, 0, a))
+            if a in sub:
+                for k in (0, 1, 2, 4):
+                    out.append(("ROUNDTRIP", n, k, a))
+                for k in (0, 4):
+                    out.append(("PART", n, k, a))
+                out.append(("RESET", n, 4, a))
+        for k in (0, 4):
+            out.append(("FETCHPART", n, k, 0))
+    return out
+
+
+def instances(tier):
+    out = []
+    for (mode, n, k, a) in _grid(tier):
+        out.append(mk("c10_%s_n%d_%s_a%d" % (mode.lower(), n, KIND_NAMES[k], a), "C10/c10.c", U,
+                      {"MODE_" + mode: None, "VP_DATA_N": n, "VP_KINDS": "0x%xu" % (1 << k), "VP_AUXSET": "0x%xu" % (1 << a)},
+                      unwind=_unwind(n), default_unwind=2, fp_removal=True, timeout=1500))
     return out
